@@ -74,6 +74,16 @@ add("C03",
     "those configurations (as the property says).",
     "Coq proof (zonotope = hull of corner images, by induction on sources) + certificate checkers proved sound and run by vm_compute on real answers", "DESIGN.md §5 C03")
 
+add("C06",
+    "(F) the Q-model of the basic-solution enumeration keeps only in-bound solutions of A'x=b', so (when any is kept) both reported ends of every source are attained by "
+    "in-bound solutions, min<=max, ends within bounds. (C) weak-LP-duality theorems: a multiplier vector bounds x_k over the WHOLE solution polytope, so certified ends are "
+    "the exact extents and every solution lies between them. Tie: (Xmin, Xmax) of ReceptorEstimator.range_of_solutions / dreye.range_of_solutions agree with the exact "
+    "Cramer-rule enumeration evaluated in the Coq VM, HiGHS dual vectors certify both ends of every source, every spaced solution is re-checked (bounds, reproduction), "
+    "out-of-gamut contract (raise / best fit as both ends) judged with separation certificates.",
+    TRUST + "np.linalg.solve and the qhull in-gamut gate are opaque (results re-derived / certified). Completeness of the vertex enumeration is certified per instance by LP "
+    "duals, not proved in general (stretch goal of DESIGN §5 C06.3 not done). _spaced_solutions is judged only through its results.",
+    "Coq proof (guarded enumeration, running min/max) + LP-duality certificate checker proved sound, run by vm_compute on real outputs", "DESIGN.md §5 C06")
+
 NOT_APPLICABLE = []
 ALL = ["C%02d" % i for i in range(1, 21)]
 
